@@ -20,7 +20,7 @@ Classes == [ int       |-> <<"0", "neg", "i32max", "max", "min">>,
              bigint    |-> <<"7", "max", "min">>,
              smallint  |-> <<"1", "max", "min">>,
              double    |-> <<"1.5", "frac", "nan", "inf", "ninf", "negzero", "max", "tiny">>,
-             str       |-> <<"plain", "empty", "quote", "backslash", "semicolon", "newline", "dashdash", "unicode", "nullword", "sqlish", "spaces">>,
+             str       |-> <<"plain", "empty", "quote", "backslash", "semicolon", "newline", "dashdash", "unicode", "nullword", "sqlish", "spaces", "crlf", "cr", "tab">>,
              bool      |-> <<"true", "false">>,
              date      |-> <<"2024-02-29", "0001-01-01", "9999-12-31">>,
              time      |-> <<"00:00:00", "23:59:59">>,
@@ -41,7 +41,7 @@ Setup == << CreateTable("TV", [i \in 1..9 |-> ColDef(ColNamesTV[i], ColTypes[i])
 ApiRow(r) == [a |-> "apirow", t |-> "TV", vals |-> r]
 Fmts == {"binary", "compressed", "json", "sql"}
 SelAll == QueryA(BaseSel(TableRef("TV")))
-RowChoices == UNION { { OneRow(k, j) : j \in 1..Len(Classes[ColOrder[k]]) } : k \in 1..9 } \cup { FullRow(j) : j \in 1..11 }
+RowChoices == UNION { { OneRow(k, j) : j \in 1..Len(Classes[ColOrder[k]]) } : k \in 1..9 } \cup { FullRow(j) : j \in 1..14 }
 
 \* ---------- round trips: every single row, every format; plus all full rows together ----------
 RtScenarios ==   { Setup \o << ApiRow(r), [a |-> "saveload", fmt |-> f], SelAll >> : r \in RowChoices, f \in Fmts }
